@@ -151,7 +151,8 @@ func run(c jcase) (msg string, payloadLen int) {
 		if err := dh.Handle(context.Background(), r); err != nil {
 			return "Handle returned " + err.Error(), 0
 		}
-		exp = append(exp, lm.EMember{Key: "time", Exp: lm.Exp{Kind: lm.ETimeInZone, T: c.instant}})
+		// for a record without a time slog's handler contract lets a handler leave the member out
+		exp = append(exp, lm.EMember{Key: "time", Exp: lm.Exp{Kind: lm.ETimeInZone, T: c.instant, Optional: c.instant.IsZero()}})
 	} else {
 		l := lm.DeriveWithDecoys(logger.New(h), c.chain, c.decoys)
 		c.prime.Run(time.Now(), c.addSource)
@@ -199,6 +200,9 @@ func genCase(t *rapid.T) jcase {
 	}
 	if c.direct {
 		c.instant = lm.GenInstant().Draw(t, "instant")
+		if rapid.IntRange(0, 9).Draw(t, "zeroTime") == 0 {
+			c.instant = time.Time{} // a record that carries no time at all
+		}
 	}
 	c.prime = lm.GenPrime(genOpts).Draw(t, "prime")
 	if len(c.chain) > 0 {
